@@ -712,6 +712,7 @@ char* read_bytes (const char *file, long start, size_t len, size_t *rlen) {
     len = size;
   if (len > (size_t)CONFIG_INT (__MAX_BYTE_TRANSFER__))
     {
+      fclose (f);		/* error() does not come back */
       error ("Transfer exceeded maximum allowed number of bytes.\n");
       return 0;
     }
@@ -724,7 +725,10 @@ char* read_bytes (const char *file, long start, size_t len, size_t *rlen) {
     len = size - start;
 
   if (fseek (f, start, 0) < 0)
-    return 0;
+    {
+      fclose (f);
+      return 0;
+    }
 
   str = new_string (len, "read_bytes: str");
 
